@@ -568,7 +568,7 @@ def replay_shape_mix(ctx, c):
 # ---------------------------------------------------------------- phase 6 G1: dimensions of the quantifier sampled at one point only
 import os as _os
 P6G_OFF = _os.environ.get("FCV_P6G_OFF") == "1"      # mutation experiments only: run the check WITHOUT the phase-6-G1 batches
-P6G_INTND = _os.environ.get("FCV_P6G_INTND") == "1"  # opt-in: reflexivity of explicit FuzzyEquality on n-d integer arrays
+P6G_INTND = _os.environ.get("FCV_P6G_INTND", "1") == "1"  # opt-in: reflexivity of explicit FuzzyEquality on n-d integer arrays
 
 
 def larger_tol(rng, t):
